@@ -15,7 +15,7 @@ use crate::refmodel::mdtok::*;
 
 pub struct VcMd;
 
-pub const LINE_KINDS: [&str; 30] = [
+pub const LINE_KINDS: [&str; 33] = [
     // non-ASCII text in every line role (heading, prose, command, expectation)
     "# \u{65e5}\u{672c}",
     "\u{e9}t\u{e9} prose",
@@ -34,6 +34,9 @@ pub const LINE_KINDS: [&str; 30] = [
     "```scrut {timeout: 3s}",
     "```scrut {timeout: 3s} ",
     "```scrut { }",
+    "```scrut {timeout: 3s",
+    "```scrut {timeout: 3s} words",
+    "## Sub head",
     "```bash",
     "````",
     "```",
@@ -72,6 +75,10 @@ pub fn segments() -> Vec<Vec<String>> {
         s(&["```scrut", "$ cmd", "[3]", "> x", "```"]),
         // a title glued to the closing fence of a foreign block that is itself glued to a paragraph
         s(&["Intro", "```bash", "x", "```", "Real title", "```scrut", "$ cmd", "```"]),
+        // a heading directly under a heading, a heading directly under a paragraph line, a paragraph line directly under a heading
+        s(&["# H1", "## H2", "```scrut", "$ cmd", "```"]),
+        s(&["Intro line", "# Head", "", "```scrut", "$ cmd", "```"]),
+        s(&["# Head", "Paragraph below", "", "```scrut", "$ cmd", "```"]),
         // blanks after the configuration; a configuration group of blanks
         s(&["```scrut {timeout: 3s} ", "$ cmd", "out", "```"]),
         s(&["```scrut { }", "$ cmd", "out", "```"]),
@@ -233,6 +240,14 @@ pub fn check_text(text: &str, res: &mut CaseResult) {
         Ok(Ok(x)) => x,
     };
     res.outcome.push(("C06", hash64(&("ok", tests.len(), reference.unterminated.is_some(), reference.unspecified.is_some()))));
+    if reference.malformed_config && reference.unspecified.is_none() {
+        // text behind `scrut` on the fence line that is not one {...} group: accepting the document means that what is
+        // written there was silently ignored
+        let mut f = Finding::new("C06", "inline-config", "a document whose fence line carries a malformed configuration is rejected".to_string(), format!("accepted with {} test(s); document = {text:?}", tests.len()));
+        f.tags = vec![];
+        res.findings.push(f);
+        return;
+    }
     if reference.unspecified == Some(ORPHANS) {
         // lines before the `$` line: accepted documents are compared with the reference, which drops those lines
         res.counters.push(("documents_with_lines_before_the_command_compared", 1));
